@@ -41,6 +41,7 @@ fn set_res(pie: &mut Pie<Trk>, scn: &Scenario, r: i64, v: i64) {
     0 => go::<0>(pie, num, v),
     1 => go::<1>(pie, num, v),
     2 => { use pie::resource::map::GetGlobalMap; let m = pie.resource_state_mut::<MK>().get_global_map_mut(); if v == ABSENT { m.remove(&MK(num)); } else { m.insert(MK(num), v); } }
+    3 => file_set(num, v),
     _ => panic!("harness: unknown resource type"),
   }
 }
@@ -54,6 +55,7 @@ fn get_res(pie: &mut Pie<Trk>, scn: &Scenario, r: i64) -> i64 {
     0 => go::<0>(pie, num),
     1 => go::<1>(pie, num),
     2 => { use pie::resource::map::GetGlobalMap; pie.resource_state_mut::<MK>().get_global_map().get(&MK(num)).copied().unwrap_or(ABSENT) }
+    3 => file_get(num),
     _ => panic!("harness: unknown resource type"),
   }
 }
@@ -64,6 +66,7 @@ fn schedule(bu: &mut pie::BottomUpBuild, scn: &Scenario, r: i64) {
     0 => bu.schedule_tasks_affected_by(&Res::<0>(num) as &dyn KeyObj),
     1 => bu.schedule_tasks_affected_by(&Res::<1>(num) as &dyn KeyObj),
     2 => bu.schedule_tasks_affected_by(&MK(num) as &dyn KeyObj),
+    3 => bu.schedule_tasks_affected_by(&file_path(num) as &dyn KeyObj),
     _ => panic!("harness: unknown resource type"),
   }
 }
@@ -117,7 +120,7 @@ fn with_task_key<R>(scn: &Scenario, t: i64, f: impl FnOnce(&dyn KeyObj) -> R) ->
 }
 fn with_res_key<R>(scn: &Scenario, r: i64, f: impl FnOnce(&dyn KeyObj) -> R) -> R {
   let (ty, num) = (scn.rtype[(r - 1) as usize], scn.rnum[(r - 1) as usize]);
-  match ty { 0 => f(&Res::<0>(num)), 1 => f(&Res::<1>(num)), _ => f(&MK(num)) }
+  match ty { 0 => f(&Res::<0>(num)), 1 => f(&Res::<1>(num)), 2 => f(&MK(num)), _ => f(&file_path(num)) }
 }
 
 fn key_id(k: &dyn KeyObj, task: bool) -> i64 {
@@ -226,6 +229,29 @@ pub fn run_scenario(scn: &Scenario) -> Vec<String> {
   world::install(scn_rc.clone());
   let scn = &*scn_rc;
   emit(json!({"ev":"reset","scn":serde_json::to_value(scn).unwrap()}));
+  if scn.rtype.iter().any(|t| *t == 3) {
+    // a directory for the file resources of this run, and the content hash stamp of every possible value
+    use pie::resource::file::hash_checker::HashChecker;
+    use pie::ResourceChecker;
+    static COUNTER: std::sync::atomic::AtomicUsize = std::sync::atomic::AtomicUsize::new(0);
+    let n = COUNTER.fetch_add(1, std::sync::atomic::Ordering::SeqCst);
+    // by default next to the harness binaries (under /verif/work), never under /tmp
+    let base = std::env::current_exe().ok().and_then(|p| p.parent().map(|d| d.to_path_buf())).unwrap_or_else(|| std::path::PathBuf::from("."));
+    let dir = base.join("files_run").join(format!("run_{}_{}", std::process::id(), n));
+    let dir = std::env::var("VERIF_FILES_DIR").map(|d| std::path::PathBuf::from(d).join(format!("run_{}_{}", std::process::id(), n))).unwrap_or(dir);
+    let _ = std::fs::remove_dir_all(&dir);
+    std::fs::create_dir_all(&dir).expect("harness: create file resource dir");
+    world::with(|w| w.file_dir = dir.clone());
+    let mut tmp: Pie<()> = Pie::default();
+    let mut names = std::collections::HashMap::new();
+    for v in 0..scn.nv {
+      file_set(9999, v);
+      let st = HashChecker.stamp(&file_path(9999), tmp.resource_state_mut::<std::path::PathBuf>()).expect("harness: hash stamp");
+      names.insert(format!("{:?}", st), v);
+    }
+    file_set(9999, ABSENT);
+    world::with(|w| w.hash_names = names);
+  }
   let tracker = CompositeTracker(Recorder { which: 0 }, CompositeTracker(EventTracker::default(), Recorder { which: 1 }));
   let mut pie = Pie::with_tracker(tracker);
   for r in 1..=scn.nr as i64 {
@@ -259,5 +285,7 @@ pub fn run_scenario(scn: &Scenario) -> Vec<String> {
     }
   }
   emit(json!({"ev":"end"}));
+  let dir = world::with(|w| w.file_dir.clone());
+  if dir.as_os_str().len() > 0 { let _ = std::fs::remove_dir_all(&dir); }
   world::take_lines()
 }
